@@ -17,4 +17,28 @@ TEXTS = {
         level_text="Exploration: tens of thousands (quick) to millions (thorough) of seeded histories on all four store stacks, each compared operation by operation with a map model (every key, neighbouring absent paths, Iterate, return classes, panics). Evidence over the sampled histories, not a proof; path pools are built to force the structural coincidences (interior paths, one-element extensions, odd split points) where such tries break.",
         level_note="Trusted: the map reference model and the simulated RocksDB contract. The I/O-error configuration uses a deliberately narrow relaxation (failed op not applied; later ops may fail; never a wrong value).",
     ),
+    "C02": dict(
+        engine="mptsim", design_ref="DESIGN.md section 5 (C02)",
+        technique=SIM + ": refinement of the root hash against an independent canonical-trie hasher after every mutation, plus direct history-independence and injectivity checks; fault-free by nature",
+        level_text="Exploration: every mutation of every sampled single-version history is checked against an independent re-implementation of the hash format on the canonical trie for the content (which gives history independence for all sampled pairs at once), plus a direct permuted rebuild and a root->content collision table.",
+        level_note="Trusted: harness/refmpt as the reading of the published format (it agrees with the code on all insert-only histories, which is how it was calibrated). No fault kind applies.",
+    ),
+    "C03": dict(
+        engine="mptsim", design_ref="DESIGN.md section 5 (C03)",
+        technique=SIM + ": snapshot/compare of every trie of a parent/child/sibling tree around every operation (live observations of the same run), seeded interleaving of logical actors, merge/discard/stale-merge orders",
+        level_text="Exploration over seeded trees of tries and interleavings; the oracle compares byte-level snapshots (root, content, pending changes incl. encodings, dead list, own store level) of every non-acting trie before/after each step, so aliasing between node objects of different tries is visible the moment it happens.",
+        level_note="Trusted: the snapshot reads (through throw-away trie objects in half of the runs, so caches of the tries under test stay cold). Stale children may fail reads; they may not read wrong data.",
+    ),
+    "C14": dict(
+        engine="mptsim", design_ref="DESIGN.md section 5 (C14)",
+        technique=SIM + ": invariant monitor over every node store (memory levels, PNodeDB iteration, raw simulated-disk bytes) after every step",
+        level_text="Exploration: the invariant 'stored under own hash, encode/decode/clone round trip, reachable nodes re-compute' is evaluated over all stores after every operation of every sampled history, with adversarial value bytes; node kinds and child-set sizes reached are counted in the evidence.",
+        level_note="Trusted: the simulated RocksDB stores bytes verbatim. No fault kind applies.",
+    ),
+    "C17": dict(
+        engine="mptsim", design_ref="DESIGN.md section 5 (C17)",
+        technique="deterministic simulation with node-loss fault injection: seeded histories, seeded loss sets below the NodeDB seam, exact frontier oracle from the harness's own walk, repair from a donor store in seeded order at equal/different versions",
+        level_text="Exploration over seeded contents x loss sets (single, subtree, scattered) x repair orders x versions, with an exact oracle for the reported missing set and for lookup outcomes, and byte comparison of the donor before/after.",
+        level_note="Trusted: the harness's reachability walk over the store (uses NodeDB.GetNode and the node structs only).",
+    ),
 }
